@@ -12,6 +12,7 @@ Driver for component `allow` (C18).  Per-case state: the configured session (all
   allow rq <peer> <hex method> <hex target> <. | hexname:hexvalue,…>
                                            → 403 empty | 200 ok | 200 head | 200 render <marker> | noanswer
   allow ka <peer> <hexmethod:hextarget,…>  → answers of one keep-alive connection joined by `|`
+  allow hc <peer> <hexmethod:hextarget,…>  → answers to a client that half-closes after its requests, joined by `|`
   allow accepterr <errno>                  → ok | stopped
 requests in flight (overlapping scrapes; `stepC`), on the endpoint of the current session:
   allow cnew <v0,v1,…>                     → ok          (series 0…n-1 with these values, nothing in flight)
@@ -97,6 +98,10 @@ def reqTok (s : String) : Option Req := do
 /-- the arm of the accept loops in the code (`src_listener_plumbing`) -/
 def arm : LoopAct := .continue
 
+/-- what a connection does on EOF from the client while a response is owed: the option the code sets
+    (`half_close(true)`, `src_connection_task`) -/
+def eof : EofAct := .finish
+
 /-- the text of a rendering in the `stepC` layer: the values of the series in order -/
 def renderVals (vs : List Nat) : List Char := ("render " ++ ",".intercalate (vs.map toString)).toList
 
@@ -161,6 +166,17 @@ def handleSeq (st : Option Sess2) (args : List String) : Option (Option Sess2 ×
       let reqs ← listTok reqTok b
       if reqs.isEmpty then none else
       match stepEv2 arm renderMarker s (.conn peer reqs) with
+      | (s', []) => pure (some s', "noanswer")
+      | (s', rs) =>
+        if rs.length == reqs.length then
+          pure (some s', "|".intercalate ((reqs.zip rs).map (fun (q, r) => showResp2 q.method r)))
+        else none
+    | "hc" => do
+      -- complete requests, then the client shuts down its write side and reads until EOF
+      let peer ← peerTok a
+      let reqs ← listTok reqTok b
+      if reqs.isEmpty then none else
+      match stepEv3 arm eof renderMarker s (.halfClose peer reqs) with
       | (s', []) => pure (some s', "noanswer")
       | (s', rs) =>
         if rs.length == reqs.length then
